@@ -41,6 +41,8 @@ type tableProg struct {
 	Entries []ent    // distinct keys, any order: sorted before use
 	Target  int      // WriteRun target size in bytes
 	Probes  [][]byte // extra lookup keys / prefixes
+	Gens    int      // the reopened tables are the Gens-th generation: each generation is opened from the document of the previous one (0 = 1)
+	Read    bool     // an intermediate generation is read before it is described again
 }
 
 func genKeyBytes(rt *rapid.T, label string) []byte {
@@ -75,6 +77,8 @@ func genTable(rt *rapid.T) tableProg {
 		})
 	}
 	p.Target = rapid.OneOf(rapid.IntRange(1, 60), rapid.IntRange(60, 600), rapid.IntRange(600, 6000)).Draw(rt, "target")
+	p.Gens = rapid.SampledFrom([]int{1, 1, 2, 2, 3}).Draw(rt, "gens")
+	p.Read = rapid.Bool().Draw(rt, "readbetween")
 	np := rapid.IntRange(0, 6).Draw(rt, "nprobes")
 	for i := 0; i < np; i++ {
 		p.Probes = append(p.Probes, genKeyBytes(rt, "probe"))
@@ -178,16 +182,45 @@ func checkGets(what string, tables []*sst.Table, run []*ent, probes [][]byte) er
 }
 
 func reopen(fs storage.FileSystem, t *sst.Table) (*sst.Table, error) {
-	// The descriptor travels through JSON exactly as in a checkpoint file.
-	data, err := json.Marshal(t.Document())
+	return reopenGens(fs, t, 1, false, nil)
+}
+
+// reopenGens opens a table from its document, gens times over: the way a table
+// that no compaction replaces travels through a chain of checkpoints and
+// restarts. Every generation must describe the table exactly as the first did.
+func reopenGens(fs storage.FileSystem, t *sst.Table, gens int, readBetween bool, keep *[]*sst.Table) (*sst.Table, error) {
+	first, err := json.Marshal(t.Document())
 	if err != nil {
 		return nil, err
 	}
-	var doc sst.TableDocument
-	if err := json.Unmarshal(data, &doc); err != nil {
-		return nil, err
+	cur := t
+	for g := 0; g < max(1, gens); g++ {
+		// The descriptor travels through JSON exactly as in a checkpoint file.
+		data, err := json.Marshal(cur.Document())
+		if err != nil {
+			return nil, err
+		}
+		if !bytes.Equal(data, first) {
+			return nil, hx.Errf("the document of generation %d of a table is %s, the table was first described as %s", g, data, first)
+		}
+		var doc sst.TableDocument
+		if err := json.Unmarshal(data, &doc); err != nil {
+			return nil, err
+		}
+		cur = sst.NewTableFromDocument(fs, &kv.AllDataOwnership{}, doc)
+		if keep != nil {
+			// a table object that becomes unreachable removes its file: every
+			// generation stays referenced until the case ends, as the checkpoints
+			// of a running database keep theirs
+			*keep = append(*keep, cur)
+		}
+		if readBetween && g+1 < gens {
+			if _, err := cur.Get(doc.StartKey); err != nil && err != kv.ErrNotFound {
+				return nil, hx.Errf("generation %d of a table: Get(start key): %v", g+1, err)
+			}
+		}
 	}
-	return sst.NewTableFromDocument(fs, &kv.AllDataOwnership{}, doc), nil
+	return cur, nil
 }
 
 func execTable(p tableProg, c *hx.Case) error {
@@ -220,12 +253,14 @@ func execTable(p tableProg, c *hx.Case) error {
 		return hx.Errf("Write: %v", err)
 	}
 	defer runtime.KeepAlive(whole)
+	var keep []*sst.Table
+	defer func() { runtime.KeepAlive(keep) }()
 	sets := []struct {
 		name   string
 		tables []*sst.Table
 	}{{"whole table", []*sst.Table{whole}}}
 	if len(run) > 0 {
-		ro, err := reopen(fs, whole)
+		ro, err := reopenGens(fs, whole, p.Gens, p.Read, &keep)
 		if err != nil {
 			return err
 		}
@@ -263,7 +298,7 @@ func execTable(p tableProg, c *hx.Case) error {
 	if len(run) > 0 {
 		var ro []*sst.Table
 		for _, t := range parts {
-			r, err := reopen(fs, t)
+			r, err := reopenGens(fs, t, p.Gens, p.Read, &keep)
 			if err != nil {
 				return err
 			}
@@ -316,7 +351,7 @@ func execTable(p tableProg, c *hx.Case) error {
 }
 
 func TestPropTable(t *testing.T) {
-	hx.Run(t, hx.Spec{Prop: "C17", Rule: "key-ascending runs of 0..120 entries (sizes clustered at 0-3, 14-18, 30-34) of puts/tombstones with binary keys incl. empty and >=0x80 bytes, written whole and with WriteRun(target 1..6000); Get of every key and neighbours, ScanPrefix of nil/present/absent prefixes, again after reopening each table from its JSON-serialised document, ranges disjoint+ordered, LevelList lookups outside the range; non-trivial = >16 entries, >=1 tombstone and >=2 tables"}, genTable, execTable)
+	hx.Run(t, hx.Spec{Prop: "C17", Rule: "key-ascending runs of 0..120 entries (sizes clustered at 0-3, 14-18, 30-34) of puts/tombstones with binary keys incl. empty and >=0x80 bytes, written whole and with WriteRun(target 1..6000); Get of every key and neighbours, ScanPrefix of nil/present/absent prefixes, again after reopening each table from its JSON-serialised document (1..3 generations: a reopened table is described and opened again, every generation's document equal to the first), ranges disjoint+ordered, LevelList lookups outside the range; non-trivial = >16 entries, >=1 tombstone and >=2 tables"}, genTable, execTable)
 }
 
 // ---------------------------------------------------------------- bloom
